@@ -20,6 +20,27 @@ private def normalized (l : List Nat) : Bool := l.getLast?.any (· != 0)
 
 private def gxModeOk (m : Int) (withT : Bool) : Bool := 0 ≤ m ∧ m < 13 ∧ (withT ∨ m < 5 ∨ m = 7 ∨ m = 8)
 
+/-- walks the Lehmer loop of the mpn_gcd model and checks, on every hgcd2 call it makes, the contract
+    assumed by `mpn_gcd_correct_partial` (unimodular, not the identity, M⁻¹(a; b) positive, at most one
+    limb lost). -/
+def gcdLoopContractOk : Nat → Nat → Nat → Nat → Bool
+  | 0, _, _, _ => true
+  | f + 1, a, b, n =>
+      if n > 2 then
+        let t := top2 a b n
+        match hgcd2 t.1 t.2.1 t.2.2.1 t.2.2.2 with
+        | some m =>
+            let a' := m.u11 * a - m.u01 * b
+            let b' := m.u00 * b - m.u10 * a
+            decide (lehmerOk m a b ∧ (m.u01 ≠ 0 ∨ m.u10 ≠ 0) ∧ 0 < a' ∧ 0 < b' ∧ (B ^ (n - 2) ≤ a' ∨ B ^ (n - 2) ≤ b'))
+              && gcdLoopContractOk f a' b' (shrinkN a' b' n)
+        | none =>
+            let r := subdivStep a b
+            match r.fin with
+            | some _ => true
+            | none => gcdLoopContractOk f r.a r.b r.n
+      else true
+
 def handle : Handler
   | "mpz_gcd", [.num m, .num a, .num b] =>
       if 0 ≤ m ∧ m ≤ 2 then some (chk (mpz_gcd a b) (gcdSpec a b)) else none
@@ -70,7 +91,9 @@ def handle : Handler
   | "mpn_gcd", [.vec u, .vec v] =>
       if u.length ≥ v.length ∧ normalized u ∧ normalized v ∧ val v % 2 = 1 ∧ (val u).log2 ≥ (val v).log2 then
         let g := mpn_gcd (val u) u.length (val v) v.length
-        if g = Nat.gcd (val u) (val v) then some [.vec (natLimbs g)] else some [.err "model_ne_spec", natTok g]
+        let u' := if u.length > v.length then val u % val v else val u
+        if ¬ (u' = 0 ∨ gcdLoopContractOk (u' + val v + 1) u' (val v) v.length) then some [.err "hgcd2_contract"]
+        else if g = Nat.gcd (val u) (val v) then some [.vec (natLimbs g)] else some [.err "model_ne_spec", natTok g]
       else none
   | "mpn_gcd_1", [.vec u, .num v] =>
       if u.length ≥ 1 ∧ val u ≠ 0 ∧ 0 < v ∧ v < 2 ^ 64 then
@@ -122,9 +145,14 @@ def hgcd2Contract (ah al bh bl : Nat) (m : M1) : Option String :=
   else if ¬ (m.u00 * m.u11 = m.u01 * m.u10 + 1) then some "det"
   else if m.u01 = 0 ∧ m.u10 = 0 then some "identity"
   else if ¬ lehmerOk m a b then some "negative"
+  else if ¬ (0 < m.u11 * a - m.u01 * b ∧ 0 < m.u00 * b - m.u10 * a) then some "zero"
   else
     let ext := [(0, 0), (0, B - 1), (B - 1, 0), (B - 1, B - 1)]
-    if ext.all (fun (x, y) => decide (lehmerOk m (a * B + x) (b * B + y))) then none else some "negative-ext"
+    if ¬ ext.all (fun (x, y) => decide (lehmerOk m (a * B + x) (b * B + y))) then some "negative-ext"
+    else if ext.all (fun (x, y) =>
+        let a' := m.u11 * (a * B + x) - m.u01 * (b * B + y)
+        let b' := m.u00 * (b * B + y) - m.u10 * (a * B + x)
+        decide (0 < a' ∧ 0 < b' ∧ (B ≤ a' ∨ B ≤ b'))) then none else some "small-ext"
 
 def pred : PredHandler
   | "mpz_gcdext", [.num m, .num a, .num b], out =>
